@@ -45,7 +45,7 @@ def _sched_worker(args):
             info['init_events'] = r.init_events
             outs = []
             for p in r.procs:
-                outs.append({'kind': p.kind, 'rc': p.rc, 'state': p.state, 'stdout': p.out.decode('utf-8', 'replace')[:4000],
+                outs.append({'kind': p.kind, 'rc': p.rc, 'state': p.state, 'stdout': p.out.decode('utf-8', 'replace')[:4000000],
                              'appended': p.appended, 'req': dict(p.req) if p.req else None})
             info['outs'] = outs
             resp = rpc.call(op='snapshot', dir=r.store.ergodir)
@@ -636,6 +636,10 @@ def compact_twin_runs(ctx):
                 tr = h.trace[-1]
                 ids = [e['id'] for e in tr['appended'] if e['t'] in ('new_task', 'new_epic')]
                 args, stdin = history.req_cli(r)
+                # result files the generator created for this request exist in the twin too
+                for name in os.listdir(h.store.dir):
+                    if name != '.ergo' and os.path.isdir(os.path.join(h.store.dir, name)):
+                        shutil.copytree(os.path.join(h.store.dir, name), os.path.join(twin, name), symlinks=True, dirs_exist_ok=True)
                 env = dict(os.environ)
                 if ids:
                     env['ERGO_VERIF_IDS'] = ','.join(ids)
